@@ -394,6 +394,8 @@ class Explorer:
             base, _, fld = path.rpartition('.')
             obj = self._resolve_path(P, bound, base)
             ft = self.field_type(obj.cls, fld)
+            if path in c.overrides:      # the callee's contract retypes this field (e.g. a symbolic container)
+                ft = self.types.parse_str(c.overrides[path], info.module.name, info.cls)
             P.write(obj.fields, fld, Lazy(ft, P.fresh_name(f'{short}.{path}')))
         if is_init:
             obj = args[0]
